@@ -110,7 +110,7 @@ HasSpl(op) == CASE op.k = "Spl" -> TRUE
                 [] Bin(op) -> HasSpl(op.l) \/ HasSpl(op.r)
                 [] OTHER -> HasSpl(op.o)
 
-FpGrids == IF Thorough THEN {E4, N5, F5, E5} ELSE {E4, N5, F5}
+FpGrids == IF Thorough THEN {E4, N5, F5, E5, Z4} ELSE {E4, N5, F5, Z4}
 \* coefficients: small integers and eighths
 FrC(n, o, v) == [r \in 1..n |-> [k \in 1..(o + 1) |-> R(((5 * r + 3 * k + 2 * v) % 11) - 5, IF (r + k) % 2 = 0 THEN 1 ELSE 2)]]
 FpSpl(S, o, v) == SplOn(S, o, IF SupNInt(S) = 0 THEN <<>> ELSE FrC(SupNInt(S), o, v))
